@@ -14,6 +14,7 @@ import (
 	"github.com/dfklegend/cell2/apimapper/registry"
 	"github.com/dfklegend/cell2/node/app"
 	"github.com/dfklegend/cell2/node/builtin/channel"
+	"github.com/dfklegend/cell2/node/builtin/msgs"
 	"github.com/dfklegend/cell2/node/client/impls"
 	cs "github.com/dfklegend/cell2/node/client/session"
 )
@@ -158,6 +159,29 @@ func (h *H) Unenc(ctx *impls.HandlerContext, a *Arg, cb apientry.HandlerCBFunc) 
 	apientry.CheckInvokeCBFunc(cb, nil, &struct{ Ratio float64 }{math.Inf(1)})
 }
 
+// boomJSON's encoding panics (a user MarshalJSON dereferencing nil), it does not return an error.
+type boomJSON struct{ p *int }
+
+func (b *boomJSON) MarshalJSON() ([]byte, error) { return []byte(strconv.Itoa(*b.p)), nil }
+
+// EncPanic completes successfully with a result whose encoding panics.
+func (h *H) EncPanic(ctx *impls.HandlerContext, a *Arg, cb apientry.HandlerCBFunc) {
+	h.n.logInvocation(ctx, "encpanic", a.T)
+	apientry.CheckInvokeCBFunc(cb, nil, &struct{ V *boomJSON }{&boomJSON{}})
+}
+
+// EchoLater / UnencLater complete like Echo / Unenc, but in a later turn of the service.
+func (h *H) EchoLater(ctx *impls.HandlerContext, a *Arg, cb apientry.HandlerCBFunc) {
+	s := h.n.logInvocation(ctx, "echolater", a.T)
+	r := h.reply(ctx, s, "echo", a)
+	s.NodeService.Post(func() { apientry.CheckInvokeCBFunc(cb, nil, r) })
+}
+
+func (h *H) UnencLater(ctx *impls.HandlerContext, a *Arg, cb apientry.HandlerCBFunc) {
+	s := h.n.logInvocation(ctx, "unenclater", a.T)
+	s.NodeService.Post(func() { apientry.CheckInvokeCBFunc(cb, nil, &struct{ Ratio float64 }{math.Inf(1)}) })
+}
+
 // Never returns without ever completing.
 func (h *H) Never(ctx *impls.HandlerContext, a *Arg, cb apientry.HandlerCBFunc) {
 	h.n.logInvocation(ctx, "never", a.T)
@@ -188,13 +212,54 @@ func (h *H) Block(ctx *impls.HandlerContext, a *Arg, cb apientry.HandlerCBFunc) 
 // pushes go through: to the requester alone (PushMessageById), to a list of connections of the
 // requester's front (PushMessageByIds), or broadcast through a channel holding that list.
 func (h *H) Send(ctx *impls.HandlerContext, a *Arg, cb apientry.HandlerCBFunc) {
+	h.doSend(ctx, a, cb, func(v any) any { return v })
+}
+
+// wrapProto carries a harness payload inside a protobuf message (client serializer = protobuf)
+func wrapProto(v any) any {
+	b, _ := json.Marshal(v)
+	return &msgs.Hello1{S: string(b)}
+}
+
+func argOf(m *msgs.Hello1) *Arg {
+	a := &Arg{}
+	json.Unmarshal([]byte(m.S), a)
+	return a
+}
+
+// PSend / PSentinel / PSetKey: the same methods for a node whose client serializer is
+// protobuf - argument, reply and pushes are msgs.Hello1{S: <the JSON payload>}.
+func (h *H) PSend(ctx *impls.HandlerContext, m *msgs.Hello1, cb apientry.HandlerCBFunc) {
+	h.doSend(ctx, argOf(m), cb, wrapProto)
+}
+
+func (h *H) PSentinel(ctx *impls.HandlerContext, m *msgs.Hello1, cb apientry.HandlerCBFunc) {
+	a := argOf(m)
+	s := h.n.logInvocation(ctx, "sentinel", 0)
+	apientry.CheckInvokeCBFunc(cb, nil, wrapProto(h.reply(ctx, s, "sentinel", a)))
+}
+
+func (h *H) PSetKey(ctx *impls.HandlerContext, m *msgs.Hello1, cb apientry.HandlerCBFunc) {
+	a := argOf(m)
+	s := h.n.logInvocation(ctx, "setkey", a.T)
+	ctx.Session.Set(RouteKey, a.Key)
+	apientry.CheckInvokeCBFunc(cb, nil, wrapProto(h.reply(ctx, s, "echo", a)))
+}
+
+func (h *H) doSend(ctx *impls.HandlerContext, a *Arg, cb apientry.HandlerCBFunc, wrap func(any) any) {
 	s := h.n.logInvocation(ctx, "send", a.T)
 	r := h.reply(ctx, s, "sent", a)
 	pads := map[int]string{}
-	padOf := func(q int64) string {
-		n := a.Pad
+	padN := func(q int64) int {
 		if len(a.Pads) > 0 {
-			n = a.Pads[int(q%int64(len(a.Pads)))]
+			return a.Pads[int(q%int64(len(a.Pads)))]
+		}
+		return a.Pad
+	}
+	padOf := func(q int64) string {
+		n := padN(q)
+		if n < 0 {
+			n = 0
 		}
 		p, ok := pads[n]
 		if !ok {
@@ -219,7 +284,12 @@ func (h *H) Send(ctx *impls.HandlerContext, a *Arg, cb apientry.HandlerCBFunc) {
 	push := func(k int) {
 		for i := 0; i < k; i++ {
 			*ctr++
-			body := &PushBody{Svc: s.name, T: a.T, Seq: seq, Ctr: *ctr, Pad: padOf(seq)}
+			var body any = wrap(&PushBody{Svc: s.name, T: a.T, Seq: seq, Ctr: *ctr, Pad: padOf(seq)})
+			if padN(seq) < 0 {
+				// a message whose fields all have their default value: zero bytes under protobuf,
+				// "{}" under JSON - it identifies nothing, but it has to arrive
+				body = &msgs.Hello1{}
+			}
 			switch {
 			case a.Mode == 1:
 				app.PushMessageByIds(s.NodeService, r.Front, a.Ids, "onSeq", body)
@@ -236,6 +306,6 @@ func (h *H) Send(ctx *impls.HandlerContext, a *Arg, cb apientry.HandlerCBFunc) {
 	*ctr++
 	r.Ctr = *ctr
 	r.Pad = strings.Repeat("x", a.RPad)
-	apientry.CheckInvokeCBFunc(cb, nil, r)
+	apientry.CheckInvokeCBFunc(cb, nil, wrap(r))
 	push(a.N2)
 }
